@@ -1299,7 +1299,17 @@ def main(repo: str, outdir: str, dry: bool = False) -> int:
             body = py2lean_post.gen_scipy_post(src("solvers/scipy_solver.py"))
         except py2lean_post.TranslateError as e:
             raise TranslateError(str(e))
-        return HEADER + "namespace Optyx.Generated\n\n" + body + "\nend Optyx.Generated\n"
+        return (HEADER + "import Optyx.Py.PostSupport\n\nnamespace Optyx.Generated\nopen Optyx.Py.Post\n\n" + body
+                + "\nend Optyx.Generated\n")
+
+    def f_constraintfns():
+        import py2lean_post
+        try:
+            body = py2lean_post.gen_constraint(src("constraints.py"))
+        except py2lean_post.TranslateError as e:
+            raise TranslateError(str(e))
+        return (HEADER + "import Optyx.Py.PostSupport\n\nnamespace Optyx.Generated\nopen Optyx.Py.Post\n\n" + body
+                + "\nend Optyx.Generated\n")
 
     def f_problemedit():
         import py2lean_state
@@ -1325,7 +1335,8 @@ def main(repo: str, outdir: str, dry: bool = False) -> int:
                         ("JacRow", f_jacrow), ("InitPoint", f_init), ("Dispatch", f_dispatch),
                         ("ApiGlue", f_apiglue), ("LPGlue", f_lpglue), ("SortGlue", f_sort),
                         ("DegreeStep", f_degstep), ("GradStep", f_gradstep), ("LPStep", f_lpstep), ("JacRowVec", f_jacrowvec),
-                        ("ScipyPost", f_scipypost), ("ProblemEdit", f_problemedit)):
+                        ("ScipyPost", f_scipypost), ("ProblemEdit", f_problemedit),
+                        ("ConstraintFns", f_constraintfns)):
         path = os.path.join(outdir, fname + ".lean")
         try:
             text = make()
